@@ -12,6 +12,11 @@ namespace Clipper2Lib { namespace verif {
   typedef void (*YieldFn)(int site);
   inline thread_local YieldFn yield_fn = nullptr;
   inline void Yield(int site) { if (yield_fn) yield_fn(site); }
+  // active-edge-list snapshot, one call per edge (left to right) and a final call with n = -1:
+  // v = { y, bot.x, bot.y, top.x, top.y, curr_x, wind_dx, wind_cnt, wind_cnt2, path type (0 subject, 1 clip),
+  //       is_open, is_hot, cliptype, fillrule }
+  typedef void (*AelFn)(int n, const long long* v);
+  inline thread_local AelFn ael_fn = nullptr;
 }}
 #define CLIPPER2_VERIF_YIELD(site) ::Clipper2Lib::verif::Yield(site)
 #else
